@@ -419,9 +419,18 @@ class Tree:
         """
         if name is None:
             name = f"Copy of {self}"
-        new_tree = self.__class__(name)
+        new_tree = self._new_like(name)
         with self:
             new_tree._root._add_from(self._root, predicate=predicate)
+        return new_tree
+
+    def _new_like(self, name: Optional[str] = None) -> Tree:
+        """Return an empty tree of the same class that calculates data_ids,
+        creates nodes, and forwards attributes the same way as this tree."""
+        new_tree = self.__class__(name)
+        new_tree._calc_data_id_hook = self._calc_data_id_hook
+        new_tree._node_factory = self._node_factory
+        new_tree._forward_attrs = self._forward_attrs
         return new_tree
 
     def copy_to(self, target: Node | Tree, *, deep=True) -> None:
